@@ -1,7 +1,9 @@
 package checks
 
 import (
+	"errors"
 	"fmt"
+	"math"
 	"math/big"
 	"strings"
 
@@ -43,7 +45,7 @@ var c09Units = func() []c09Unit {
 	return us
 }()
 
-var c09Amounts = []string{"0", "1", "11", "12", "13", "23", "24", "25", "59", "60", "61", "365", "366", "1000", "1.5", "0.999", "-1", "-13"}
+var c09Amounts = []string{"0", "1", "11", "12", "13", "23", "24", "25", "59", "60", "61", "365", "366", "1000", "1.5", "0.999", "-1", "-13", "20000", "106751", "106752", "110000", "3000000", "9999999999"}
 
 func c09AmountClass(a string) string {
 	switch {
@@ -329,6 +331,21 @@ func c09RelClass(v c09Value, u c09Unit) string {
 	return u.class + "." + rel
 }
 
+// c09BeyondDurationSpan: the amount, in an hour / minute / second / millisecond unit, exceeds what 64-bit nanoseconds hold
+func c09BeyondDurationSpan(amount string, u c09Unit) bool {
+	ns := map[int]int64{3: 3600e9, 4: 60e9, 5: 1e9, 6: 1e6}[u.rank]
+	if ns == 0 {
+		return false
+	}
+	a, ok := new(big.Rat).SetString(amount)
+	if !ok {
+		return false
+	}
+	a.Abs(a)
+	a.Mul(a, new(big.Rat).SetInt64(ns))
+	return a.Cmp(new(big.Rat).SetInt64(math.MaxInt64)) > 0
+}
+
 // judge compares one implementation outcome with the reference and returns a discrepancy ("" = fine)
 func c09Judge(v c09Value, sign int, amount string, u c09Unit, gotText string, gotErr error, pi *core.PanicInfo) string {
 	if pi != nil {
@@ -350,6 +367,9 @@ func c09Judge(v c09Value, sign int, amount string, u c09Unit, gotText string, go
 		return "time-changed-by-calendar-unit"
 	}
 	finer := u.rank > c09PrecRank(v.ref)
+	if gotErr != nil && errors.Is(gotErr, system.ErrIntOverflow) && c09BeyondDurationSpan(amount, u) {
+		return "" // latitude: a clock amount that does not fit 64-bit nanoseconds (about 292 years) may be refused; it must not wrap
+	}
 	if gotErr != nil {
 		if u.class == "ucum" || finer {
 			return "" // latitude: UCUM spellings and units finer than the precision may be rejected instead of converted
@@ -377,8 +397,8 @@ func c09Judge(v c09Value, sign int, amount string, u c09Unit, gotText string, go
 func init() {
 	timeVals := c09TimeValues()
 	core.Register(&core.Check{
-		ID: "C09",
-		Rule: "start values: the first/last three days, the 15th and the 27th/28th of every month of 2019-2022 (quick) / every day of 2019-2022 (thorough) plus the 0001/9999 edges and the century leap-day cases x every precision (Date 3; DateTime year..millisecond) x offsets {none, Z, +05:30, -11:00} x 3 times of day; Time at 4 precisions x 3 times of day; x 26 units (16 calendar keywords, 8 UCUM spellings, 'mg', '1') x 18 amounts {0,1,11,12,13,23,24,25,59,60,61,365,366,1000,1.5,0.999,-1,-13} x {+,-}, by direct calls of system.{Date,DateTime,Time}.{Add,Sub}; every (type, precision, unit, op) also through Compile/Evaluate as 'x + q' / 'x - q' with literal and environment-variable operands; compared with an independent proleptic-Gregorian day-count model (no package time); monotonicity and (x+q)-q=x on the implementation's own outputs; Quantity +,- within one unit; distinct by construction (the enumeration is a bijection)",
+		ID:          "C09",
+		Rule:        "start values: the first/last three days, the 15th and the 27th/28th of every month of 2019-2022 (quick) / every day of 2019-2022 (thorough) plus the 0001/9999 edges and the century leap-day cases x every precision (Date 3; DateTime year..millisecond) x offsets {none, Z, +05:30, -11:00} x 3 times of day; Time at 4 precisions x 3 times of day; x 26 units (16 calendar keywords, 8 UCUM spellings, 'mg', '1') x 24 amounts {0,1,11,12,13,23,24,25,59,60,61,365,366,1000,1.5,0.999,-1,-13,20000,106751,106752,110000,3000000,9999999999} (a clock amount beyond 64-bit nanoseconds may be refused with the overflow error, never wrapped) x {+,-}, by direct calls of system.{Date,DateTime,Time}.{Add,Sub}; every (type, precision, unit, op) also through Compile/Evaluate as 'x + q' / 'x - q' with literal and environment-variable operands; compared with an independent proleptic-Gregorian day-count model (no package time); monotonicity and (x+q)-q=x on the implementation's own outputs; Quantity +,- within one unit; distinct by construction (the enumeration is a bijection)",
 		Assumptions: []string{"reference model: harness/lib/reftime.go + c09Ref (1 year = 365 days, 1 month = 30 days, fractions dropped, month-end clamping, Time wraps)", "latitude: a UCUM-spelled unit or a unit finer than the value's precision may be answered with an error instead of the converted amount; the 0001/9999 edges are checked for totality only"},
 		Subs: func(tier string) []core.Sub {
 			days := c09Days(tier)
